@@ -721,6 +721,10 @@ func checkDCMISensorInfo(c *Ctx, r *Report) {
 				src = call
 			}
 			k, isK := constInt(p.Resolve(lk.Index))
+			if !isK {
+				// the key read from a constant position of a package-level table
+				k, isK = tableElem(c, p, lk.Index)
+			}
 			if call != src || !isK || wantKeys[call] == nil || wantKeys[call][fld] != k {
 				okMap = false
 			}
@@ -976,4 +980,51 @@ func sumsLens(fn *ssa.Function) bool {
 		}
 	})
 	return ok
+}
+
+
+// tableElem: v (on path p) is element k, k constant, of a package-level slice or
+// array whose initial contents are known and which is written nowhere else:
+// returns that element's constant value.
+func tableElem(c *Ctx, p CPath, v ssa.Value) (int64, bool) {
+	ld, ok := p.Resolve(stripConv(v)).(*ssa.UnOp)
+	if !ok || ld.Op != token.MUL {
+		return 0, false
+	}
+	ia, ok := ld.X.(*ssa.IndexAddr)
+	if !ok {
+		return 0, false
+	}
+	k, ok := constInt(p.Resolve(ia.Index))
+	if !ok || k < 0 {
+		return 0, false
+	}
+	base, ok := p.Resolve(ia.X).(*ssa.UnOp)
+	if !ok || base.Op != token.MUL {
+		return 0, false
+	}
+	g, ok := base.X.(*ssa.Global)
+	if !ok {
+		return 0, false
+	}
+	// never reassigned or written through outside its initialiser
+	for _, fn := range c.ModFn {
+		if fn.Blocks == nil || fn.Name() == "init" {
+			continue
+		}
+		written := false
+		rawInstrs(fn, false, func(in ssa.Instruction) {
+			if st, ok := in.(*ssa.Store); ok && apOf(st.Addr).Root == ssa.Value(g) {
+				written = true
+			}
+		})
+		if written {
+			return 0, false
+		}
+	}
+	gv := newInitReader(c).global(g)
+	if gv == nil || int(k) >= len(gv.Elems) {
+		return 0, false
+	}
+	return gv.Elems[k].Int()
 }
